@@ -8,7 +8,9 @@ package main
 import (
 	"fmt"
 	"go/types"
+	"os"
 	"reflect"
+	"sort"
 	"strings"
 
 	"golang.org/x/tools/go/ssa"
@@ -45,6 +47,9 @@ func protoFields(st *types.Struct) []pfield {
 	for i := 0; i < st.NumFields(); i++ {
 		tag := reflect.StructTag(st.Tag(i)).Get("protobuf")
 		if tag == "" {
+			if on := reflect.StructTag(st.Tag(i)).Get("protobuf_oneof"); on != "" {
+				out = append(out, pfield{goIndex: i, goName: st.Field(i).Name(), name: "oneof:" + on, json: "oneof:" + on, oneof: true, goType: st.Field(i).Type()})
+			}
 			continue
 		}
 		f := pfield{goIndex: i, goName: st.Field(i).Name(), goType: st.Field(i).Type()}
@@ -66,6 +71,9 @@ func protoFields(st *types.Struct) []pfield {
 		}
 		if f.json == "" {
 			f.json = f.name
+		}
+		if _, isIface := f.goType.Underlying().(*types.Interface); !isIface {
+			f.oneof = false // proto3 optional: synthetic oneof, stored as a plain pointer field
 		}
 		et := f.goType
 		if sl, ok := et.Underlying().(*types.Slice); ok && f.repeated {
@@ -132,6 +140,57 @@ func protoFields(st *types.Struct) []pfield {
 		out = append(out, f)
 	}
 	pfieldCache[st] = out
+	return out
+}
+
+type oneofMember struct {
+	wrapper *types.Named // e.g. Event_Text (pointer type implements the oneof interface)
+	pf      pfield       // the single field of the wrapper
+}
+
+// oneofMembers finds the wrapper types of a oneof interface field.
+func (e *Engine) oneofMembers(iface types.Type) []oneofMember {
+	it, ok := iface.Underlying().(*types.Interface)
+	if !ok {
+		return nil
+	}
+	n, ok := iface.(*types.Named)
+	if !ok || n.Obj().Pkg() == nil {
+		return nil
+	}
+	pkg := e.prog.ImportedPackage(n.Obj().Pkg().Path())
+	if pkg == nil {
+		return nil
+	}
+	var out []oneofMember
+	names := make([]string, 0, len(pkg.Members))
+	for name := range pkg.Members {
+		names = append(names, name)
+	}
+	sort.Strings(names)
+	for _, name := range names {
+		t, ok := pkg.Members[name].(*ssa.Type)
+		if !ok {
+			continue
+		}
+		wn, ok := t.Type().(*types.Named)
+		if !ok {
+			continue
+		}
+		st, ok := wn.Underlying().(*types.Struct)
+		if !ok || st.NumFields() != 1 || !strings.Contains(st.Tag(0), ",oneof") {
+			continue
+		}
+		if !types.Implements(types.NewPointer(wn), it) {
+			continue
+		}
+		pfs := protoFields(st)
+		if len(pfs) == 1 {
+			pf := pfs[0]
+			pf.oneof = false
+			out = append(out, oneofMember{wrapper: wn, pf: pf})
+		}
+	}
 	return out
 }
 
@@ -366,10 +425,35 @@ func (e *Engine) marshalJSON(cell *Value, st *types.Struct, site ssa.Instruction
 	for _, f := range protoFields(st) {
 		v := s[f.goIndex]
 		if f.oneof {
-			if ifc, ok := v.(Iface); ok && ifc.T == nil {
+			ifc, _ := v.(Iface)
+			if ifc.T == nil {
 				continue
 			}
-			e.abort("unsupported", "protojson model: oneof field %s", f.name)
+			wp, _ := ifc.V.(Ptr)
+			if wp.P == nil {
+				continue
+			}
+			done := false
+			for _, m := range e.oneofMembers(f.goType) {
+				if types.Identical(ifc.T, types.NewPointer(m.wrapper)) {
+					inner := (*wp.P).(Struct)[0]
+					if p, isPtr := inner.(Ptr); isPtr && m.pf.kind == kMessage {
+						if p.P == nil {
+							obj.add(m.pf.json, &JSON{Kind: "null"}, tTrue)
+						} else {
+							sub := m.pf.goType.Underlying().(*types.Pointer).Elem().Underlying().(*types.Struct)
+							obj.add(m.pf.json, e.marshalJSON(p.P, sub, site), tTrue)
+						}
+					} else {
+						obj.add(m.pf.json, e.scalarJSON(inner, m.pf, site), tTrue) // a set oneof member is emitted even at its zero value
+					}
+					done = true
+				}
+			}
+			if !done {
+				e.abort("unsupported", "protojson model: unknown oneof wrapper %v", ifc.T)
+			}
+			continue
 		}
 		if _, isMap := f.goType.Underlying().(*types.Map); isMap {
 			m, _ := v.(*Map)
@@ -425,6 +509,12 @@ func (e *Engine) scalarJSON(v Value, f pfield, site ssa.Instruction) *JSON {
 		return &JSON{Kind: "num", N: T(v)}
 	case kEnum:
 		return &JSON{Kind: "enum", N: intOf(T(v), true)}
+	case kBytes:
+		bt, _ := bytesOf(v)
+		if bt == nil {
+			bt = mkStr("")
+		}
+		return &JSON{Kind: "str", S: e.encodeBytes(bt, "base64")}
 	case kMessage:
 		p := v.(Ptr)
 		if p.P == nil {
@@ -469,6 +559,43 @@ func (e *Engine) unmarshalJSON(j *JSON, cell *Value, st *types.Struct, site ssa.
 			}
 		}
 		if fd == nil {
+			// a member of a oneof?
+			handled := false
+			for fi := range fields {
+				if !fields[fi].oneof {
+					continue
+				}
+				for _, m := range e.oneofMembers(fields[fi].goType) {
+					if m.pf.json != k && m.pf.name != k {
+						continue
+					}
+					if seen[fields[fi].goIndex] {
+						return e.errorf("proto: oneof %s is already set", fields[fi].name)
+					}
+					if j.Vals[i].Kind == "null" && m.pf.kind != kMessage {
+						handled = true
+						break
+					}
+					seen[fields[fi].goIndex] = true
+					var inner Value
+					if j.Vals[i].Kind == "null" {
+						inner = Ptr{}
+					} else {
+						x, err := e.scalarFromJSON(j.Vals[i], m.pf, site)
+						if err != nil {
+							return err
+						}
+						inner = x
+					}
+					wc := new(Value)
+					*wc = Struct{inner}
+					cur[fields[fi].goIndex] = Iface{T: types.NewPointer(m.wrapper), V: Ptr{P: wc}}
+					handled = true
+				}
+			}
+			if handled {
+				continue
+			}
 			return e.errorf("proto: unknown field %q", k)
 		}
 		if seen[fd.goIndex] {
@@ -476,9 +603,6 @@ func (e *Engine) unmarshalJSON(j *JSON, cell *Value, st *types.Struct, site ssa.
 		}
 		seen[fd.goIndex] = true
 		v := j.Vals[i]
-		if fd.oneof {
-			e.abort("unsupported", "protojson model: oneof field %s", fd.name)
-		}
 		if _, isMap := fd.goType.Underlying().(*types.Map); isMap {
 			e.abort("unsupported", "protojson model: map field %s", fd.name)
 		}
@@ -604,6 +728,21 @@ func (e *Engine) scalarFromJSON(v *JSON, f pfield, site ssa.Instruction) (Value,
 			return app(fmt.Sprintf("(_ to_fp %s) RNE", fpSort(w)), KFP, w, app("to_real", KInt, 0, v.N)), nil
 		}
 		return bad()
+	case kBytes:
+		if v.Kind != "str" {
+			return bad()
+		}
+		// protojson accepts standard and URL-safe base64, padded or not
+		for _, k := range []string{"base64", "base64url", "base64raw", "base64urlraw"} {
+			if v.S.EscOf != nil && v.S.EscKind == "enc:"+k {
+				return Bytes{T: v.S.EscOf}, nil
+			}
+		}
+		d, ok := e.decodeBytes(v.S, "base64")
+		if !ok {
+			return bad()
+		}
+		return Bytes{T: d}, nil
 	case kEnum:
 		if v.Kind == "num" || v.Kind == "enum" {
 			return bvOfInt(v.N, 32), nil
@@ -737,6 +876,25 @@ func init() {
 		cell, _, T := e.messageArg(a[0], s)
 		return Tuple{MBytes{Enc: "proto", T: T, Snap: deepCopy(*cell)}, Iface{}}
 	})
+	// proto.Size: only emptiness is observed by code in scope: 0 iff every field has its default
+	reg(pp+".Size", func(e *Engine, fn *ssa.Function, a []Value, s ssa.Instruction) Value {
+		if ifc, ok := a[0].(Iface); ok && (ifc.T == nil || isNilPtr(ifc.V)) {
+			return mkBV(64, 0)
+		}
+		cell, _, _ := e.messageArg(a[0], s)
+		allZero := tTrue
+		for _, f := range (*cell).(Struct) {
+			if _, isStruct := f.(Struct); isStruct {
+				continue
+			}
+			if p, isPtr := f.(Ptr); isPtr && p.P != nil {
+				allZero = tFalse // a present sub-message or optional scalar has a non-empty encoding (tag byte)
+				continue
+			}
+			allZero = And(allZero, isZeroTerm(f))
+		}
+		return Ite(allZero, mkBV(64, 0), mkBV(64, 1))
+	})
 	reg(pp+".Unmarshal", func(e *Engine, fn *ssa.Function, a []Value, s ssa.Instruction) Value {
 		cell, st, T := e.messageArg(a[1], s)
 		switch x := a[0].(type) {
@@ -794,7 +952,30 @@ func init() {
 		return JBytes{&JSON{Kind: "str", S: T(a[0])}}
 	})
 	regVerif("JInt", func(e *Engine, fn *ssa.Function, a []Value, s ssa.Instruction) Value {
-		return JBytes{&JSON{Kind: "num", N: intOf(T(a[0]), true)}}
+		return JBytes{&JSON{Kind: "num", N: intOf(T(a[0]), true), NBV: T(a[0]), NBVS: true}}
+	})
+	regVerif("JUint", func(e *Engine, fn *ssa.Function, a []Value, s ssa.Instruction) Value {
+		return JBytes{&JSON{Kind: "num", N: intOf(T(a[0]), false), NBV: T(a[0]), NBVS: false}}
+	})
+	// JObjOpt(k1, v1, present1, k2, v2, present2, ...)
+	regVerif("JObjOpt", func(e *Engine, fn *ssa.Function, a []Value, s ssa.Instruction) Value {
+		obj := jObj()
+		args := argSlice(a[0])
+		for i := 0; i+2 < len(args); i += 3 {
+			k := constStr(e, args[i].(Iface).V, "JSON key", s)
+			obj.add(k, jval(args[i+1].(Iface).V), T(args[i+2].(Iface).V))
+		}
+		return JBytes{obj}
+	})
+	regVerif("JEqual", func(e *Engine, fn *ssa.Function, a []Value, s ssa.Instruction) Value {
+		r := jsonEqual(e.jdoc(a[0]), e.jdoc(a[1]))
+		if os.Getenv("GOSYM_DEBUG") != "" && r.Const && !r.BVal {
+			fmt.Fprintf(os.Stderr, "JEqual false:\n  %s\n  %s\n", dumpJSON(e.jdoc(a[0])), dumpJSON(e.jdoc(a[1])))
+		}
+		return r
+	})
+	regVerif("JRaw", func(e *Engine, fn *ssa.Function, a []Value, s ssa.Instruction) Value {
+		return JBytes{parseConcreteJSON(constStr(e, a[0], "JSON text", s))}
 	})
 	regVerif("JBool", func(e *Engine, fn *ssa.Function, a []Value, s ssa.Instruction) Value {
 		return JBytes{&JSON{Kind: "bool", B: T(a[0])}}
@@ -882,4 +1063,113 @@ func init() {
 		}
 		return Slice(nil)
 	})
+}
+
+// jsonEqual: structural equality of two abstract documents as a formula.
+func jsonEqual(a, b *JSON) *Term {
+	ka, kb := a.Kind, b.Kind
+	if ka == "enum" {
+		ka = "num"
+	}
+	if kb == "enum" {
+		kb = "num"
+	}
+	if ka != kb {
+		if os.Getenv("GOSYM_DEBUG") != "" {
+			fmt.Fprintf(os.Stderr, "jsonEqual: kind %s vs %s\n", ka, kb)
+		}
+		return tFalse
+	}
+	switch ka {
+	case "null", "invalid":
+		return tTrue
+	case "bool":
+		return Eq(a.B, b.B)
+	case "str":
+		return Eq(a.S, b.S)
+	case "num":
+		if a.NBV != nil && b.NBV != nil && a.NBV.W == b.NBV.W && a.NBVS == b.NBVS {
+			return Eq2bv(a.NBV, b.NBV)
+		}
+		if a.N.K != b.N.K {
+			return tFalse
+		}
+		return Eq(a.N, b.N)
+	case "arr":
+		if len(a.Elems) != len(b.Elems) {
+			return tFalse
+		}
+		r := tTrue
+		for i := range a.Elems {
+			r = And(r, jsonEqual(a.Elems[i], b.Elems[i]))
+		}
+		return r
+	case "obj":
+		keys := map[string]bool{}
+		for _, k := range a.Keys {
+			keys[k] = true
+		}
+		for _, k := range b.Keys {
+			keys[k] = true
+		}
+		names := make([]string, 0, len(keys))
+		for k := range keys {
+			names = append(names, k)
+		}
+		sort.Strings(names)
+		r := tTrue
+		find := func(j *JSON, k string) (*JSON, *Term) {
+			// the last present entry of a key wins; entries are built without duplicates here
+			for i := len(j.Keys) - 1; i >= 0; i-- {
+				if j.Keys[i] == k {
+					return j.Vals[i], j.Present[i]
+				}
+			}
+			return nil, tFalse
+		}
+		for _, k := range names {
+			va, pa := find(a, k)
+			vb, pb := find(b, k)
+			r = And(r, Eq(pa, pb))
+			if va != nil && vb != nil {
+				r = And(r, Or(Not(And(pa, pb)), jsonEqual(va, vb)))
+			}
+		}
+		return r
+	}
+	return tFalse
+}
+
+func Eq2bv(a, b *Term) *Term {
+	if a.Const && b.Const {
+		return mkBool(a.UVal == b.UVal)
+	}
+	if a.String() == b.String() {
+		return tTrue
+	}
+	return app("=", KBool, 0, a, b)
+}
+
+func dumpJSON(j *JSON) string {
+	switch j.Kind {
+	case "obj":
+		var parts []string
+		for i, k := range j.Keys {
+			parts = append(parts, fmt.Sprintf("%q[%s]: %s", k, describe(j.Present[i]), dumpJSON(j.Vals[i])))
+		}
+		return "{" + strings.Join(parts, ", ") + "}"
+	case "arr":
+		var parts []string
+		for _, e := range j.Elems {
+			parts = append(parts, dumpJSON(e))
+		}
+		return "[" + strings.Join(parts, ", ") + "]"
+	case "str":
+		return "str(" + describe(j.S) + ")"
+	case "num", "enum":
+		return "num(" + describe(j.N) + ")"
+	case "bool":
+		return "bool(" + describe(j.B) + ")"
+	}
+	return j.Kind
 }
